@@ -177,7 +177,7 @@ Definition tls_negotiate (cli srv : list bytes) : handshake :=
 
 (* what the key-exchange peer does on one connection attempt *)
 Record peer := {
-  p_up : bool;              (* a TLS server answers at the address and completes handshakes it can *)
+  p_up : bool;              (* a TLS (QUIC) server answers at the address and completes handshakes it can *)
   p_alpn : list bytes;      (* the server's ALPN list *)
   p_host : bytes;           (* host part of the connection's remote address *)
   p_stream : bytes          (* everything the server sends before it closes or drops the connection *)
